@@ -36,6 +36,8 @@ const (
 	Cancel     Op = "Cancel(e1)"
 	SendCancel Op = "SendCancel(e2)"
 	Flush      Op = "RawFlush"
+	RawWrite   Op = "RawWrite"
+	RawRecv    Op = "RawRecv"
 	PMsg       Op = "pkt:Message"
 	PCloseSend Op = "pkt:CloseSend"
 	PClose     Op = "pkt:Close"
@@ -48,7 +50,7 @@ const (
 )
 
 // Alphabet lists every symbol, simplest first.
-var Alphabet = []Op{Send, Recv, CloseSend, Close, SendError, Cancel, SendCancel, Flush, PMsg, PCloseSend, PClose, PError, PCancel, PInvoke, PUnkCtl, PUnk, PForeign}
+var Alphabet = []Op{Send, Recv, CloseSend, Close, SendError, Cancel, SendCancel, Flush, RawWrite, RawRecv, PMsg, PCloseSend, PClose, PError, PCancel, PInvoke, PUnkCtl, PUnk, PForeign}
 
 // IsPacket reports whether the symbol is a packet from the peer.
 func (o Op) IsPacket() bool { return len(o) > 4 && o[:4] == "pkt:" }
@@ -133,7 +135,7 @@ func (m *Model) Enabled(op Op) bool {
 	if op.IsPacket() && m.slot {
 		return false
 	}
-	if op == Recv && len(m.receivers) >= 2 {
+	if (op == Recv || op == RawRecv) && len(m.receivers) >= 2 {
 		return false // keep the number of parked receivers small
 	}
 	return true
@@ -233,12 +235,25 @@ func (m *Model) Step(op Op) Prediction {
 		if m.ManualFlush {
 			m.corked++
 		} else {
+			// the flush after the message also carries whatever an earlier raw write left buffered
+			for i := 0; i < m.corked; i++ {
+				p.Emits = append(p.Emits, Emit{Kind: KMessage})
+			}
+			m.corked = 0
 			p.Emits = append(p.Emits, Emit{Kind: KMessage})
 		}
 		ret(Nil)
+	case RawWrite:
+		// a raw write never flushes by itself
+		if m.send != "" {
+			ret(m.sendErr())
+			break
+		}
+		m.corked++
+		ret(Nil)
 	case Flush:
 		ret(m.flush(&p))
-	case Recv:
+	case Recv, RawRecv:
 		if !m.flushedOnce {
 			m.flushedOnce = true
 			if c := m.flush(&p); c != Nil {
